@@ -40,7 +40,9 @@ def gen_domain(t, feat=None, multi_agent=False):
     f.update(feat or {})
     D = {"name": "dom"}
     ntypes = 1 + t.draw(f["max_types"])
-    names = [f"t{i}" for i in range(ntypes)]
+    # names are drawn from shuffled pools so that alphabetical / hash order is independent of structure (depth in the
+    # type tree, declaration order, arity)
+    names = t.shuffle([f"t{i}" for i in range(6)])[:ntypes]
     types = {}
     if multi_agent:
         types["agent"] = "object"
@@ -50,25 +52,29 @@ def gen_domain(t, feat=None, multi_agent=False):
     tnames = list(types)
     D["constants"] = {}
     if f["constants"] and t.chance(1, 2):
+        knames = t.shuffle(["k0", "k1", "k2"])
         for i in range(1 + t.draw(2)):
-            D["constants"][f"k{i}"] = t.pick(names)
+            D["constants"][knames[i]] = t.pick(names)
     preds = {}
+    pnames = t.shuffle([f"p{i}" for i in range(6)])
     for i in range(1 + t.draw(f["max_preds"])):
         ar = t.draw(3) if i else 1
-        preds[f"p{i}"] = [t.pick(tnames) for _ in range(ar)]
+        preds[pnames[i]] = [t.pick(tnames) for _ in range(ar)]
     D["predicates"] = preds
     funcs = {}
     if f["numeric"]:
+        fnames = t.shuffle([f"f{i}" for i in range(5)])
         for i in range(1 + t.draw(f["max_funcs"])):
-            funcs[f"f{i}"] = [t.pick(tnames) for _ in range(t.draw(3))]
+            funcs[fnames[i]] = [t.pick(tnames) for _ in range(t.draw(3))]
     D["functions"] = funcs
     acts = {}
+    anames = t.shuffle([f"a{i}" for i in range(6)])
     for ai in range(1 + t.draw(f["max_actions"])):
         npar = t.draw(f["max_params"] + 1)
         params = [(f"?x{j}", t.pick(tnames)) for j in range(npar)]
         if multi_agent:
             params = [("?ag", "agent")] + params
-        acts[f"a{ai}"] = {
+        acts[anames[ai]] = {
             "params": params,
             "pre": gen_conj(t, D, params, f, top=True),
             "eff": gen_effects(t, D, params, f),
@@ -143,16 +149,20 @@ def gen_lit(t, D, scope, f):
 
 def gen_conj(t, D, scope, f, top=False, depth=2):
     items = []
+    # nested (or / forall) bodies are stored as Precondition objects whose hash/dedup goes through the simplifying
+    # printer; numeric comparisons inside them run into the simplifier's recorded defects already at parse time, so
+    # they are not generated there (that is C13's subject)
+    fn = dict(f, numeric=False)
     for _ in range(t.draw(4)):
         k = t.draw(10)
         if k == 0 and f["or_pre"] and depth > 0:
-            sub = [x for x in (gen_lit(t, D, scope, f) for _ in range(1 + t.draw(3))) if x]
+            sub = [x for x in (gen_lit(t, D, scope, fn) for _ in range(1 + t.draw(3))) if x]
             if sub:
                 items.append(("or", sub))
         elif k == 1 and f["forall_pre"] and top:
             ty = t.pick(list(D["types"]))
             v = "?q"
-            sub = [x for x in (gen_lit(t, D, scope + [(v, ty)], f) for _ in range(1 + t.draw(2))) if x]
+            sub = [x for x in (gen_lit(t, D, scope + [(v, ty)], fn) for _ in range(1 + t.draw(2))) if x]
             if sub:
                 items.append(("forall", v, ty, ("and", sub)))
         else:
@@ -212,10 +222,12 @@ def gen_problem(t, D, feat=None, agents=0):
     f.update(feat or {})
     names = [n for n in D["types"] if n != "agent"]
     objs = {}
+    agnames = t.shuffle([f"ag{i}" for i in range(max(agents, 1) + 2)])
     for i in range(agents):
-        objs[f"ag{i}"] = "agent"
+        objs[agnames[i]] = "agent"
+    onames = t.shuffle([f"o{i}" for i in range(9)])
     for i in range(2 + t.draw(max(1, f["max_objects"] - 1))):
-        objs[f"o{i}"] = t.pick(names)
+        objs[onames[i]] = t.pick(names)
     allobj = {**objs, **D["constants"]}
     facts = set()
     for p, sig in D["predicates"].items():
@@ -365,8 +377,8 @@ def noise(text, t, level=1):
             post = ["", "", "", "", "", "", " ", "\t", "\n", " ;; note )\n", "\r\n", "\t "][r2]
             out.append(pre + ch + post)
         elif ch == " ":
-            r = t.draw(8)
-            out.append([" ", " ", " ", " ", "  ", "\t", "\n", " ;k\n"][r])
+            r = t.draw(10)
+            out.append([" ", " ", " ", " ", "  ", "\t", "\n", " ;k\n", ";glued\n", "\r\n"][r])
         else:
             out.append(ch.upper() if upper and t.chance(1, 3) else ch)
         i += 1
